@@ -190,7 +190,7 @@ func encodeMsg(codec string, msg proto.Message) ([]byte, error) {
 	case "proto":
 		return proto.Marshal(msg)
 	case "json", "jsonu":
-		return protojson.Marshal(msg)
+		return protojson.MarshalOptions{Resolver: privResolver{}}.Marshal(msg)
 	}
 	return nil, fmt.Errorf("unknown codec %q", codec)
 }
@@ -204,7 +204,7 @@ func decodeMsg(codec string, data []byte, into proto.Message) error {
 			// an empty body is not valid JSON; report it as such
 			return errors.New("empty JSON document")
 		}
-		return protojson.Unmarshal(data, into)
+		return protojson.UnmarshalOptions{Resolver: privResolver{}}.Unmarshal(data, into)
 	}
 	return fmt.Errorf("unknown codec %q", codec)
 }
